@@ -65,7 +65,18 @@ def expectedU : List (String × String) := [
   ("plainclass", "StructuredTypeUnmarshaller"),
   ("forwardref", "DelayedUnmarshaller"),
   ("newtypeInt", "NumberUnmarshaller"),
-  ("aliasInt", "NumberUnmarshaller")]
+  ("aliasInt", "NumberUnmarshaller"),
+  ("typevarFree", "NoOpUnmarshaller"),
+  ("typevarBound", "NumberUnmarshaller"),
+  ("typevarConstrained", "UnionUnmarshaller"),
+  ("typeOf", "NoOpUnmarshaller"),
+  ("abcCallable", "NoOpUnmarshaller"),
+  ("genericBare", "StructuredTypeUnmarshaller"),
+  ("genericInt", "StructuredTypeUnmarshaller"),
+  ("noHints", "StructuredTypeUnmarshaller"),
+  ("typingListBare", "CastUnmarshaller"),
+  ("typingDictBare", "CastUnmarshaller"),
+  ("frozensetBare", "CastUnmarshaller")]
 
 /-- The pairing the model's semantics presupposes (marshal side). -/
 def expectedM : List (String × String) := [
@@ -121,12 +132,43 @@ def expectedM : List (String × String) := [
   ("plainclass", "StructuredTypeMarshaller"),
   ("forwardref", "DelayedMarshaller"),
   ("newtypeInt", "CastMarshaller"),
-  ("aliasInt", "CastMarshaller")]
+  ("aliasInt", "CastMarshaller"),
+  ("typevarFree", "NoOpMarshaller"),
+  ("typevarBound", "CastMarshaller"),
+  ("typevarConstrained", "UnionMarshaller"),
+  ("typeOf", "NoOpMarshaller"),
+  ("abcCallable", "NoOpMarshaller"),
+  ("genericBare", "StructuredTypeMarshaller"),
+  ("genericInt", "StructuredTypeMarshaller"),
+  ("noHints", "StructuredTypeMarshaller"),
+  ("typingListBare", "IterableMarshaller"),
+  ("typingDictBare", "MappingMarshaller"),
+  ("frozensetBare", "IterableMarshaller")]
 
 /-- First row on which two tables differ (for the replay file). -/
 def firstDiff : List (String × String) → List (String × String) → Option (String × String × String)
   | (a, x) :: r, (_, y) :: s => if x == y then firstDiff r s else some (a, x, y)
   | _, _ => none
+
+/-- No catalogue annotation — the U⁺ kinds of C15 included (TypeVars, type[X], Callable, bare and
+    parameterised user generics, classes without hints, unparameterised containers) — makes a dispatch
+    predicate raise: every kind selects a routine class. -/
+def knownRoutines : List String :=
+  ["NoOpUnmarshaller", "NoneTypeUnmarshaller", "BytesUnmarshaller", "StringUnmarshaller", "NumberUnmarshaller",
+   "DateUnmarshaller", "DateTimeUnmarshaller", "TimeUnmarshaller", "TimeDeltaUnmarshaller", "UUIDUnmarshaller",
+   "PatternUnmarshaller", "CastUnmarshaller", "LiteralUnmarshaller", "UnionUnmarshaller",
+   "SubscriptedMappingUnmarshaller", "SubscriptedIterableUnmarshaller", "SubscriptedIteratorUnmarshaller",
+   "FixedTupleUnmarshaller", "StructuredTypeUnmarshaller", "DelayedUnmarshaller",
+   "NoOpMarshaller", "NoneTypeMarshaller", "CastMarshaller", "ToStringMarshaller", "EnumMarshaller", "PatternMarshaller",
+   "ToISOTimeMarshaller", "LiteralMarshaller", "UnionMarshaller", "MappingMarshaller", "IterableMarshaller",
+   "SubscriptedMappingMarshaller", "SubscriptedIterableMarshaller", "FixedTupleMarshaller", "StructuredTypeMarshaller",
+   "DelayedMarshaller"]
+
+/-- Every row names a routine class (the extractor writes `raises:<Error>` when a dispatch predicate
+    raises on the annotation, `unknown` when it cannot name the class). -/
+def total (rows : List (String × String)) : Bool := rows.all fun r => knownRoutines.contains r.2
+
+theorem dispatch_total : total Typelib.Gen.dispatchU = true ∧ total Typelib.Gen.dispatchM = true := by decide
 
 theorem dispatch_unmarshal_ok : Typelib.Gen.dispatchU = expectedU := by decide
 theorem dispatch_marshal_ok : Typelib.Gen.dispatchM = expectedM := by decide
